@@ -224,6 +224,23 @@ func (s *store) update(username, password string) (result updateResult) {
 	return
 }
 
+// upgrade handles a queued local hash-upgrade request. Other requests may have been
+// handled since it was queued (password change, removal, re-creation of the user, an
+// earlier upgrade), so the hash is only rewritten if the password still authenticates
+// and the hash still needs an upgrade.
+func (s *store) upgrade(username, password string) (result updateResult) {
+	ok, _, upgradeable, _, err := s.dir.Authenticate(username, password)
+	if err != nil {
+		result.err = err
+		return
+	}
+	if !ok || !upgradeable {
+		result.err = errors.New("credentials are outdated or the hash has already been upgraded")
+		return
+	}
+	return s.update(username, password)
+}
+
 func (s *store) setAdmin(username string, isAdmin bool) (result setAdminResult) {
 	result.err = s.dir.SetAdmin(username, isAdmin)
 	if result.err == nil {
@@ -277,7 +294,7 @@ func (s *store) dispatchRequests() {
 				req.response <- s.update(req.username, req.password)
 			} else {
 				wdl.Printf("upgrade(local): upgrading '%s'", req.username)
-				if resp := s.update(req.username, req.password); resp.err != nil {
+				if resp := s.upgrade(req.username, req.password); resp.err != nil {
 					wl.Printf("upgrade(local): failed for '%s': %v", req.username, resp.err)
 				} else {
 					wdl.Printf("upgrade(local): successfully upgraded '%s'", req.username)
